@@ -146,7 +146,12 @@ class Interp:
                 return
         import specs
         if fr is not None and fr.fn is not None:
-            why = specs.documented_panic(fr.fn["path"], what)
+            why = None
+            f_ = fr
+            while f_ is not None and why is None:
+                if f_.fn is not None:
+                    why = specs.documented_panic(f_.fn["path"], what)
+                f_ = f_.parent
             if why:
                 self.oblige(kind, fr, node, what, self.path_goal(st), True, "documented: " + why, status="requires")
                 return
